@@ -412,6 +412,13 @@ class ChildWorld:
             ev["loops"] = loops
             eus = eng._units_system
             ev["eus"] = {"space": eus["space"], "time": eus["time"], "quantity": eus["quantity"]}
+        elif name == "sysinfo":
+            # what the front end made of the description: state, chemostat map (C04 twins)
+            system = self.get_system(sidx)
+            ev["state"] = system.state.value.tobytes()
+            ev["state_q"] = system.state.units.sys["quantity"]
+            ev["state_dim"] = [system.state.units.dim["space"], system.state.units.dim["time"], system.state.units.dim["quantity"]]
+            ev["chem"] = [int(c) for c in system.chemostats]
         elif name == "gc":
             gc.collect()
         elif name == "poison":
